@@ -263,21 +263,33 @@ def fetchPlainScalar : S Unit := do
 
 -- keys and values -------------------------------------------------------------------------------
 
-def fetchKey : S Unit := do
-  let s ← getS
-  let startMark := s.mark
+/-- `?` in a flow sequence entry: remember that the entry has an explicit key -/
+def markExplicitKey (s : Sc) : Sc :=
+  match s.implStates with
+  | .possible :: r => { s with implStates := .explicitKey :: r }
+  | _ => s
+
+/-- block context: open the mapping (if allowed); flow context: mark the entry -/
+def keyPrologue (s : Sc) : S Unit :=
   if s.flowLevel == 0 then
-    if !s.simpleKeyAllowed then err s.mark "mapping keys are not allowed in this context"
-    else rollIndent startMark.col none .blockMappingStart startMark
-  else modS fun s => match s.implStates with
-    | .possible :: r => { s with implStates := .explicitKey :: r }
-    | _ => s
-  removeSimpleKey
-  if s.flowLevel == 0 then allowSimpleKey else disallowSimpleKey
+    (if !s.simpleKeyAllowed then err s.mark "mapping keys are not allowed in this context"
+     else rollIndent s.mark.col none .blockMappingStart s.mark)
+  else modS markExplicitKey
+
+def fetchKeyTail (startMark : Marker) : S Unit := do
   skipNonBlank
   skipYamlWhitespace
-  if (← peek) == '\t' then err (← getMark) "tabs disallowed in this context"
-  else pushTok ⟨startMark, ← getMark⟩ .key
+  let c ← peek
+  let m ← getMark
+  if c == '\t' then err m "tabs disallowed in this context"
+  else pushTok ⟨startMark, m⟩ .key
+
+def fetchKey : S Unit := do
+  let s ← getS
+  keyPrologue s
+  removeSimpleKey
+  (if s.flowLevel == 0 then allowSimpleKey else disallowSimpleKey)
+  fetchKeyTail s.mark
 
 /-- `':'` after a possible simple key: back-insert `Key` (and `FlowMappingStart`), open the block mapping -/
 def valueAfterSimpleKey (sk : SimpleKey) (startMark : Marker) (isImplicit : Bool) : S Unit := do
@@ -344,84 +356,105 @@ def fetchFlowValue : S Unit := do
 
 -- the fetch loop --------------------------------------------------------------------------------
 
+/-- after `...`: only blanks and a comment may follow on the line -/
+def fetchDocumentEndMarker : S Bool := do
+  fetchDocumentIndicator .documentEnd
+  let _ ← skipWsToEol .yes
+  let ok ← liftI In.nextIsBreakz
+  let m ← getMark
+  if !ok then err m "invalid content after document end marker" else pure true
+
+/-- column-0 constructs: directives and document markers; returns whether one was fetched -/
+def fetchSpecial : S Bool := do
+  let s ← getS
+  if s.mark.col == 0 then do
+    if ← liftI (In.nextCharIs '%') then do fetchDirective; pure true
+    else if ← liftI In.nextIsDocumentStart then do fetchDocumentIndicator .documentStart; pure true
+    else if ← liftI In.nextIsDocumentEnd then fetchDocumentEndMarker
+    else pure false
+  else pure false
+
+/-- dispatch on the next one or two characters -/
+def fetchDispatch : S Unit := do
+  let s ← getS
+  if (s.mark.col : Int) < s.indent then err s.mark "invalid indentation"
+  else do
+    let c ← peek
+    let nc ← peekNth 1
+    if c == '[' then fetchFlowCollectionStart .flowSequenceStart
+    else if c == '{' then fetchFlowCollectionStart .flowMappingStart
+    else if c == ']' then fetchFlowCollectionEnd .flowSequenceEnd
+    else if c == '}' then fetchFlowCollectionEnd .flowMappingEnd
+    else if c == ',' then fetchFlowEntry
+    else if c == '-' && isBlankOrBreakz nc then fetchBlockEntry
+    else if c == '?' && isBlankOrBreakz nc then fetchKey
+    else if c == ':' && isBlankOrBreakz nc then fetchValue
+    else if c == ':' && s.flowLevel > 0 && (isFlow nc || s.mark.index == s.adjacentValueAllowedAt) then
+      fetchFlowValue
+    else if c == '*' then fetchAnchor true
+    else if c == '&' then fetchAnchor false
+    else if c == '!' then fetchTag
+    else if c == '|' && s.flowLevel == 0 then fetchBlockScalar true
+    else if c == '>' && s.flowLevel == 0 then fetchBlockScalar false
+    else if c == '\'' then fetchFlowScalar true
+    else if c == '"' then fetchFlowScalar false
+    else if c == '-' && !isBlankOrBreakz nc then fetchPlainScalar
+    else if (c == ':' || c == '?') && !isBlankOrBreakz nc && s.flowLevel == 0 then fetchPlainScalar
+    else if c == '%' || c == '@' || c == '`' then
+      err s.mark s!"unexpected character: `{c}'"
+    else fetchPlainScalar
+
+/-- `fetch_next_token` once the stream has started -/
+def fetchAfterStart : S Unit := do
+  skipToNextToken
+  staleSimpleKeys
+  let mark ← getMark
+  unrollIndent mark.col
+  lookahead 4
+  if ← liftI In.nextIsZ then fetchStreamEnd
+  else do
+    let special ← fetchSpecial
+    if special then pure () else fetchDispatch
+
 def fetchNextToken : S Unit := do
   lookahead 1
-  if !(← getS).streamStartProduced then fetchStreamStart
+  let s ← getS
+  if !s.streamStartProduced then fetchStreamStart else fetchAfterStart
+
+/-- whether the queue cannot deliver its first token yet: it is empty, or a possible simple key
+    still points at the first token (a `Key` may have to be inserted before it) -/
+def needMoreTokens : S Bool := do
+  let s ← getS
+  if s.tokens.isEmpty then pure true
   else do
-    skipToNextToken
     staleSimpleKeys
-    let mark ← getMark
-    unrollIndent mark.col
-    lookahead 4
-    if ← liftI In.nextIsZ then fetchStreamEnd
-    else do
-      let s ← getS
-      let special ←
-        if s.mark.col == 0 then do
-          if ← liftI (In.nextCharIs '%') then do fetchDirective; pure true
-          else if ← liftI In.nextIsDocumentStart then do fetchDocumentIndicator .documentStart; pure true
-          else if ← liftI In.nextIsDocumentEnd then do
-            fetchDocumentIndicator .documentEnd
-            let _ ← skipWsToEol .yes
-            if !(← liftI In.nextIsBreakz) then err (← getMark) "invalid content after document end marker"
-            else pure true
-          else pure false
-        else pure false
-      if special then pure ()
-      else do
-        let s ← getS
-        if (s.mark.col : Int) < s.indent then err s.mark "invalid indentation"
-        else do
-          let c ← peek
-          let nc ← peekNth 1
-          if c == '[' then fetchFlowCollectionStart .flowSequenceStart
-          else if c == '{' then fetchFlowCollectionStart .flowMappingStart
-          else if c == ']' then fetchFlowCollectionEnd .flowSequenceEnd
-          else if c == '}' then fetchFlowCollectionEnd .flowMappingEnd
-          else if c == ',' then fetchFlowEntry
-          else if c == '-' && isBlankOrBreakz nc then fetchBlockEntry
-          else if c == '?' && isBlankOrBreakz nc then fetchKey
-          else if c == ':' && isBlankOrBreakz nc then fetchValue
-          else if c == ':' && s.flowLevel > 0 && (isFlow nc || s.mark.index == s.adjacentValueAllowedAt) then
-            fetchFlowValue
-          else if c == '*' then fetchAnchor true
-          else if c == '&' then fetchAnchor false
-          else if c == '!' then fetchTag
-          else if c == '|' && s.flowLevel == 0 then fetchBlockScalar true
-          else if c == '>' && s.flowLevel == 0 then fetchBlockScalar false
-          else if c == '\'' then fetchFlowScalar true
-          else if c == '"' then fetchFlowScalar false
-          else if c == '-' && !isBlankOrBreakz nc then fetchPlainScalar
-          else if (c == ':' || c == '?') && !isBlankOrBreakz nc && s.flowLevel == 0 then fetchPlainScalar
-          else if c == '%' || c == '@' || c == '`' then
-            err s.mark s!"unexpected character: `{c}'"
-          else fetchPlainScalar
+    let s ← getS
+    pure (s.simpleKeys.any fun sk => sk.possible && sk.tokenNumber == s.tokensParsed)
 
 def fetchMoreTokens : Nat → S Unit
   | 0 => panicAt .fuel
   | fuel + 1 => do
-    let s ← getS
-    let needMore ←
-      if s.tokens.isEmpty then pure true
-      else do
-        staleSimpleKeys
-        let s ← getS
-        pure (s.simpleKeys.any fun sk => sk.possible && sk.tokenNumber == s.tokensParsed)
+    let needMore ← needMoreTokens
     if needMore then do fetchNextToken; fetchMoreTokens fuel
     else modS fun s => { s with tokenAvailable := true }
+
+/-- deliver the first queued token -/
+def popToken : S (Option Token) := do
+  let s ← getS
+  match s.tokens with
+  | [] => err s.mark "did not find expected next token"
+  | t :: ts => do
+    modS fun s => { s with tokens := ts, tokenAvailable := false, tokensParsed := s.tokensParsed + 1,
+                           streamEndProduced := s.streamEndProduced || t.ty == .streamEnd }
+    pure (some t)
 
 def nextToken : S (Option Token) := do
   let s ← getS
   if s.streamEndProduced then pure none
   else do
-    if !s.tokenAvailable then fetchMoreTokens (s.inp.remaining + 4)
-    let s ← getS
-    match s.tokens with
-    | [] => err s.mark "did not find expected next token"
-    | t :: ts => do
-      modS fun s => { s with tokens := ts, tokenAvailable := false, tokensParsed := s.tokensParsed + 1,
-                             streamEndProduced := s.streamEndProduced || t.ty == .streamEnd }
-      pure (some t)
+    (if !s.tokenAvailable then fetchMoreTokens (s.inp.remaining + 4) else pure ())
+    popToken
+
 
 inductive Outcome
   | done | error (e : ScanError) | panic (p : Site)
